@@ -598,6 +598,7 @@ META = dict(
 )
 
 MANIFEST_ENTRY = dict(
+    category='model_checking',
     engine='E3',
     technique='protocol extraction from the real TileManager/TileCreator + SMT: Houdini-inferred inductive invariant (z3) for unbounded interleavings of k requests; z3 BMC refutes with a schedule replayed on the real TileManager with threads',
     design_ref='DESIGN.md 3 C08',
